@@ -171,6 +171,15 @@ def gen(tier, r):
         sent = dict((k, rnd_u32(r)) for k in RANGE)
         ops.append(eod_op(mode, sv, pv, cur, sent, r.randrange(1, 10 ** 9)))
 
+    # the application changes the mode while a response streams in (between the Cache Response and the End of Data): the mode in
+    # effect when the End of Data is processed decides what is accepted
+    for mode in MODES:
+        for mode2 in MODES + [7]:
+            for _ in range(3 * mult):
+                cur = dict((k, rnd_in_range(r, k)) for k in RANGE)
+                sent = dict((k, r.choice([0, 1, rnd_u32(r), RANGE[k][0] - 1 if RANGE[k][0] else 0, RANGE[k][1] + 1])) for k in RANGE)
+                ops.append(eod_op(mode, 1, 1, cur, sent, r.randrange(1, 10 ** 9), mode2=mode2))
+
     # rtr_set_interval_mode: only the four declared modes are accepted
     for cur in MODES + [9]:
         for o in MODES + [-1, 4, 2 ** 31 - 1, r.randrange(-100, 100)]:
@@ -379,7 +388,12 @@ def spec_wait_end(frags, body, start, limit):
     return hdr_at + RECV_SLACK, "expired-in-remainder"
 
 
-def eod_op(mode, sv, pv, cur, sent, now):
+def eod_op(mode, sv, pv, cur, sent, now, mode2=None):
+    if mode2 is not None:
+        eff = mode2 if mode2 in MODES else mode
+        return Op("eodm %d %d %d %d %d %d %d %d %d %d %d" % (mode, mode2, sv, pv, cur["refresh"], cur["expire"], cur["retry"],
+                                                               sent["refresh"], sent["retry"], sent["expire"], now),
+                  "eod", mode=eff, sv=sv, pv=pv, cur=cur, sent=sent, now=now)
     return Op("eod %d %d %d %d %d %d %d %d %d %d" % (mode, sv, pv, cur["refresh"], cur["expire"], cur["retry"],
                                                       sent["refresh"], sent["retry"], sent["expire"], now),
               "eod", mode=mode, sv=sv, pv=pv, cur=cur, sent=sent, now=now)
@@ -403,6 +417,9 @@ def parse_op(line):
             return Op(line, "eod", mode=int(w[1]), sv=int(w[2]), pv=int(w[3]),
                       cur={"refresh": int(w[4]), "expire": int(w[5]), "retry": int(w[6])},
                       sent={"refresh": int(w[7]), "retry": int(w[8]), "expire": int(w[9])}, now=int(w[10]))
+        if w[0] == "eodm":
+            return eod_op(int(w[1]), int(w[3]), int(w[4]), {"refresh": int(w[5]), "expire": int(w[6]), "retry": int(w[7])},
+                          {"refresh": int(w[8]), "retry": int(w[9]), "expire": int(w[10])}, int(w[11]), mode2=int(w[2]))
         if w[0] == "setmode":
             return Op(line, "setmode", cur=int(w[1]), o=int(w[2]))
         if w[0] == "wait":
